@@ -171,7 +171,7 @@ func judgeC05Prefix(rc *RunCtx, frozen, cut *CheckRun) {
 			ref = firstFailing(cut)
 		}
 	}
-	if ref != nil && DrawLog(F) != DrawLog(ref) {
+	if ref != nil && DrawLogPruned(F) != DrawLogPruned(ref) {
 		rc.V(viol("C05.R4", "result-not-last-accepted", "the limited run presents {%s} but its last accepted step drew {%s}", drawsStr(F.Draws), drawsStr(ref.Draws)))
 	}
 }
